@@ -21,7 +21,7 @@ ASSUMPTIONS = ['playback objects are small picklable harness objects whose origi
                'the parent\'s "timed out" decision and the delivery of SIGKILL (a legitimate OS schedule made '
                'deterministic)']
 
-FAILING = ('player_raises', 'extractor_raises', 'comparator_raises') + PF.PROCESS_FAULTS
+FAILING = ('player_raises', 'extractor_raises', 'comparator_raises', 'bad_answer') + PF.PROCESS_FAULTS
 
 
 def check(scenario, obs):
@@ -35,7 +35,7 @@ def check(scenario, obs):
     for c in comps:
         rid = c['recording_id']
         b = script[rid]
-        want = PF.expected_status(b).name
+        want = PF.expected_status(b, scenario['dedicated']).name
         if c['playback_id'] is not None and c['playback_id'] != rid:
             raise Violation('comparison labelled %s carries the replay of %s (script %r)' % (
                 rid, c['playback_id'], [script[i] for i in ids]), 'attribution')
@@ -43,7 +43,8 @@ def check(scenario, obs):
             raise Violation('recording %s (%s) got verdict %s (%r), expected %s; script %r, all verdicts %r' % (
                 rid, b, c['status'], c['message'], want, [script[i] for i in ids],
                 [(x['recording_id'], x['status']) for x in comps]), 'verdict')
-        if b in ('equal', 'different') and c['message'] != 'verdict of %s' % rid:
+        if (b in ('equal', 'different') or (b == 'bad_answer' and not scenario['dedicated'])) and \
+                c['message'] != 'verdict of %s' % rid:
             raise Violation('recording %s carries the message %r of another recording' % (rid, c['message']),
                             'attribution')
         if b == 'bare_status' and c['message'] is not None:
@@ -69,7 +70,7 @@ def run_one(ctx, scenario):
     obs = PF.run_scenario(scenario)
     check(scenario, obs)
     bs = [scenario['script'][i] for i in scenario['ids']]
-    if not any(b in PF.PROCESS_FAULTS for b in bs):
+    if not any(b in PF.PROCESS_FAULTS or b == 'bad_answer' for b in bs):
         # differential: the other execution mode must give the same verdict list
         other = dict(scenario, dedicated=not scenario['dedicated'])
         obs2 = PF.run_scenario(other)
@@ -98,7 +99,7 @@ def scenarios(draw, dedicated=None):
     ded = draw(st.booleans()) if dedicated is None else dedicated
     if ded:
         pool = ['equal', 'equal', 'different', 'player_raises', 'extractor_raises', 'comparator_raises', 'bare_status',
-                'exit', 'hang', 'late', 'late', 'hang_sigterm_ignored', 'dies_after_giveup']
+                'exit', 'hang', 'late', 'late', 'hang_sigterm_ignored', 'dies_after_giveup', 'bad_answer']
     else:
         pool = ['equal', 'equal', 'different', 'player_raises', 'extractor_raises', 'comparator_raises', 'bare_status']
     behs = [draw(st.sampled_from(pool)) for _ in ids]
